@@ -353,10 +353,6 @@ theorem dev_int_above_f64max : (format [101] (.int 17976931348623157081452742373
 theorem dev_float_group_exponent : (format [44] (.float 6103021453049119613)).view = some (some [49, 101, 43, 44, 49, 48, 48]) ∧
     pyFormat [44] (PyValue.float 6103021453049119613) = some [49, 101, 43, 49, 48, 48] := by decide +kernel
 
-/-- float-repr-near-integer: `format(0.9999999999999999, "")` -/
-theorem dev_float_near_integer : (format [] (.float 4607182418800017407)).view = some (some [49, 46, 48]) ∧
-    pyFormat [] (PyValue.float 4607182418800017407) = some [48, 46, 57, 57, 57, 57, 57, 57, 57, 57, 57, 57, 57, 57, 57, 57, 57, 57] := by decide +kernel
-
 /-- float-repr-tie-rounds-up: `format(600377706905611.25, "")` -/
 theorem dev_float_tie : (format [] (.float 4828158222569046106)).view = some (some [54, 48, 48, 51, 55, 55, 55, 48, 54, 57, 48, 53, 54, 49, 49, 46, 51]) ∧
     pyFormat [] (PyValue.float 4828158222569046106) = some [54, 48, 48, 51, 55, 55, 55, 48, 54, 57, 48, 53, 54, 49, 49, 46, 50] := by decide +kernel
@@ -364,10 +360,6 @@ theorem dev_float_tie : (format [] (.float 4828158222569046106)).view = some (so
 /-- float-default-type-alt-no-point: `format(1e100, "#")` -/
 theorem dev_float_alt_no_point : (format [35] (.float 6103021453049119613)).view = some (some [49, 101, 43, 49, 48, 48]) ∧
     pyFormat [35] (PyValue.float 6103021453049119613) = some [49, 46, 101, 43, 49, 48, 48] := by decide +kernel
-
-/-- float-default-type-precision-zero: `format(0.5, ".0")` -/
-theorem dev_float_precision_zero : (format [46, 48] (.float 4602678819172646912)).view = some (some [53, 101, 45, 48, 49]) ∧
-    pyFormat [46, 48] (PyValue.float 4602678819172646912) = some [48, 46, 53] := by decide +kernel
 
 /-- float-default-type-precision-no-dot-zero: `format(1.0, ".5")` -/
 theorem dev_float_no_dot_zero : (format [46, 53] (.float 4607182418800017408)).view = some (some [49]) ∧
